@@ -334,6 +334,25 @@ def class_state_obligations(rep: Report, ledger):
         except (OSError, SyntaxError):
             continue
         todo += [(file, n.name) for n in tree.body if isinstance(n, ast.ClassDef)]
+    # one frame obligation per file that has a function under contract: no function of the module keeps state in a module-level
+    # variable (subscript store / mutating method call / `global` rebinding: pyvc/model.py: module_state_mutations).  Such state is shared
+    # by every object in the process -- a parent or table resolved for one image would be handed to another (C07, C08, C12).
+    from .model import module_state_mutations
+
+    for file in files:
+        try:
+            tree = ast.parse(open(os.path.join(rep.repo, file)).read())
+        except (OSError, SyntaxError):
+            continue
+        muts = []
+        for fn in [n for n in ast.walk(tree) if isinstance(n, (ast.FunctionDef, ast.AsyncFunctionDef))]:
+            muts += [f"{fn.name}: {m_}" for m_ in module_state_mutations(rep.repo, file, fn)]
+        name = f"{os.path.basename(file)[:-3]}:<module>/frame.no_function_keeps_state_in_module_variables"
+        rep.obligations[name] = {"verdict": "discharged" if not muts else "undischarged", "atoms": 1, "ms": 0, "backends": {"set-inclusion"}, "stages": set(), "line": 0, "props": [rep.pid]}
+        if muts:
+            text = "module-level state mutated by a function (shared by every object in the process): " + "; ".join(sorted(set(muts))[:6])
+            p = write_replay(rep.pid, name, {"property": rep.pid, "obligation": name, "verifier_output": text})
+            rep.violations.append((p, f"{name}: {text}", True))
     for file, cls in todo:
         try:
             shared = shared_class_state(rep.repo, file, cls + ".x")
